@@ -10,7 +10,8 @@ ANCHORS = ['bip_equal', 'bip_less_than', 'bip_greater_than', 'get_two_constants'
 WITNESSES = {'all': ['succeeds', 'fails', 'int-int', 'float-float', 'float-int', 'atom-atom', 'non-constant', 'through-chain']}
 OPTS = {'quick': {'selfcheck_mod': 40, 'budget_s': 240}, 'thorough': {'selfcheck_mod': 300, 'budget_s': 1800}}
 BOUNDS = {
-    'quick': '5 predicates x ordered operand pairs over: symbolic i64 (all values), symbolic f64 (all values incl. NaN, infinities, -0.0), atoms of 0-2 symbolic '
+    'quick': '5 predicates x 1 300 concrete boundary pairs (integers 0, +-1, 2^53, 2^53+1, i64::MAX, i64::MIN against floats 0.0, -0.0, 2^53, 2^53+2, 2^63, 1e19, infinities, NaN, both orders, and integer pairs); '
+             '5 predicates x ordered operand pairs over: symbolic i64 (all values), symbolic f64 (all values incl. NaN, infinities, -0.0), atoms of 0-2 symbolic '
              'characters (code points 0x20..0x7ff), each given literally or through a chain of 1-2 bound variables; unbound variable, complex term, list, `$_`; '
              'each goal is asked twice (at most one answer) and the substitution set is compared before/after',
     'thorough': 'same, atoms up to 3 characters, chains up to 3 variables, and the infix forms parsed by parse_subgoal',
@@ -31,8 +32,21 @@ def operand_forms(tier):
     return out
 
 
+INTS = [0, 1, -1, 3, 2 ** 53, 2 ** 53 + 1, -(2 ** 53) - 1, 2 ** 63 - 1, -(2 ** 63)]
+FLOATS = [0.0, -0.0, 0.5, 3.0, 9007199254740992.0, 9007199254740994.0, 9.223372036854775807e18, 1e19, -1e19, float('inf'), float('-inf'), float('nan')]
+
+
 def cases(tier, seed):
     out = []
+    # boundary values, concretely (no solver needed): integers around 2^53 and at the ends of i64 against the floats next to them
+    for p in PREDS:
+        for i in INTS:
+            for fi, f in enumerate(FLOATS):
+                out.append({'id': '%s(%d, %r)' % (p, i, f), 'pred': p, 'fam': 'values', 'i': i, 'f': fi, 'order': 0})
+                out.append({'id': '%s(%r, %d)' % (p, f, i), 'pred': p, 'fam': 'values', 'i': i, 'f': fi, 'order': 1})
+        for i in INTS:
+            for j in INTS[4:]:
+                out.append({'id': '%s(%d, %d)' % (p, i, j), 'pred': p, 'fam': 'values', 'i': i, 'j': j, 'order': 0})
     forms = operand_forms(tier)
     for p in PREDS:
         for l in forms:
@@ -81,7 +95,24 @@ def str_order(m, x, y):
     return (len(x) > len(y)) - (len(x) < len(y))
 
 
+def run_values(drv, case):
+    m = drv.m
+    env = B.Env(drv)
+    kb = drv.kb([])
+    a = ('int', case['i'])
+    b = ('int', case['j']) if 'j' in case else ('float', FLOATS[case['f']])
+    if case['order']: a, b = b, a
+    r1, r2 = B.run_goal(drv, kb, ('gb', case['pred'], (a, b)), env.ss)
+    want = expected(m, case['pred'], a, b)
+    if (r1.h is not None) != want:
+        raise Violation('wrong-outcome:%s:%s~%s' % (case['pred'], a[0], b[0]), '%s: the goal %s but the operands %s compare that way' % (
+            case['id'], 'succeeds' if r1.h is not None else 'fails', 'do' if want else 'do not'))
+    if r2.h is not None: raise Violation('more-than-once:%s' % case['pred'], case['id'] + ': a second answer was produced')
+    return {'tags': ['succeeds' if want else 'fails', 'boundary-values'], 'note': case['id']}
+
+
 def run(drv, case):
+    if case.get('fam') == 'values': return run_values(drv, case)
     m = drv.m
     env = B.Env(drv)
     kb = drv.kb([])
